@@ -390,6 +390,12 @@ def check_C02(ctx):
             if r_c1 != refs[sp.compose(src_t, {k1: g1})]:
                 ctx.violation('route compose (one variable) gives another reference', dict(
                     route='compose1', tt=src_t, var=k1, g=g1, order=order, tags=dict(call='route:compose1')))
+            # route: parsing the DNF formula
+            try:
+                import checks_parse as _cp
+                got['parse'] = s.val(s.op(0, 'add_expr', _cp.esc(dnf_lines(sp, t))))
+            except ImportError:
+                pass
             # route: copy from the other manager
             bld1 = getattr(s, '_bld1', None)
             if bld1 is None:
